@@ -22,6 +22,9 @@ import (
 var (
 	verifRoot = envOr("VERIF_ROOT", "/verif")
 	repoRoot  = envOr("VERIF_REPO", "/repo")
+	// outRoot: where evidence and replay files go (redirected when a seeded change in a scratch
+	// worktree is evaluated, so that the committed evidence is not overwritten)
+	outRoot = envOr("VERIF_OUT", verifRoot)
 )
 
 func envOr(k, d string) string {
@@ -373,7 +376,7 @@ func (c *Ctx) writeEvidence() {
 		"violations":  c.violations,
 	}
 	b, _ := json.MarshalIndent(ev, "", " ")
-	mustWrite(filepath.Join(verifRoot, "evidence", c.ID+".json"), append(b, '\n'))
+	mustWrite(filepath.Join(outRoot, "evidence", c.ID+".json"), append(b, '\n'))
 }
 
 // ---------------------------------------------------------------------------------------
@@ -454,7 +457,7 @@ func (c *Ctx) Violation(r Replay) {
 	}
 	c.knownSeen["v:"+key] = true
 	c.violations++
-	path := filepath.Join(verifRoot, "replays", fmt.Sprintf("%s-%s.json", c.ID, key))
+	path := filepath.Join(outRoot, "replays", fmt.Sprintf("%s-%s.json", c.ID, key))
 	b, _ := json.MarshalIndent(r, "", " ")
 	mustWrite(path, b)
 	fmt.Printf("VIOLATION property=%s replay=%s\n", c.ID, path)
